@@ -430,6 +430,11 @@ func (i *interpreter) jsonEnc(fr *frame, sb *bytes.Buffer, v value, t types.Type
 		sb.Write(jsonCompactEscape(b))
 		return nil
 	}
+	if pt, isPtr := t.Underlying().(*types.Pointer); isPtr && isTimeType(pt.Elem()) {
+		if pv := v.(*value); pv != nil {
+			return i.jsonEnc(fr, sb, load(pt.Elem(), pv), pt.Elem(), quoted, depth+1)
+		}
+	}
 	if isTimeType(t) && hasSymbolic(v, 0) {
 		// a symbolic instant cannot be formatted; it crosses JSON as a placeholder carrying the
 		// instant with its monotonic reading stripped (what the RFC3339 text form preserves)
@@ -659,6 +664,16 @@ func (i *interpreter) jsonDec(fr *frame, raw []byte, p *value, t types.Type, use
 		var s string
 		json.Unmarshal(raw, &s)
 		if sym, ok := i.jsonSyms[strings.TrimPrefix(s, jsonSymPrefix)]; ok && strings.HasPrefix(s, jsonSymPrefix) {
+			if pt, isPtr := t.Underlying().(*types.Pointer); isPtr && !types.Identical(sym.t, t) {
+				// a placeholder decoded into *T: allocate (or reuse) the cell and decode into T
+				cur := (*p).(*value)
+				if cur == nil {
+					cell := zero(pt.Elem())
+					cur = &cell
+					*p = cur
+				}
+				return i.jsonDec(fr, raw, cur, pt.Elem(), useNumber, quoted)
+			}
 			if types.Identical(sym.t, t) {
 				cell := sym.v
 				*p = load(t, &cell)
